@@ -500,36 +500,38 @@ def run(ctx):
         oks = [r for r in res if r[1] == 'ok']
         ctx.vacuity_witness('encase class assertions reachable', oks[0][0])
     dual_role_check(ctx, seen)
-    # ---------------------------------------------------------------- (2) layout lemma in z3
-    for n in ([2, 3] if quick else [2, 3, 4]):
-        plain, expl = layout_lemma(ctx, n)
-        if plain is not None:
-            ctx.report('C10/layout-lemma', f'encase and WGSL layouts differ for a struct of {n} representable members without explicit attributes: {str(plain)[:300]}', {}, False)
-        if expl is not None:
-            seen[KNOWN_KEY] = seen.get(KNOWN_KEY, 0) + 1
-            if seen[KNOWN_KEY] == 1:
-                bad, cnt = native_encase(ctx, CORPUS_EXPLICIT, ['S6'], 'explicit')
-                ctx.report(KNOWN_KEY, f'explicit @size/@align is lost: {bad}', {'wgsl': CORPUS_EXPLICIT, 'encase': bad}, bool(bad), bad)
-    ctx.extra['layout_lemma'] = 'unsat (layouts agree) for every struct shape in the bound without explicit attributes; sat with explicit @size/@align (known finding)'
-    # ---------------------------------------------------------------- (3) native corpus through real encase + glam
-    names = ['S1', 'S2', 'S3', 'S4', 'S5', 'S7', 'S8', 'S9', 'S10']
-    for extra, dsrc in (({'derive_bytemuck_vertex': True}, DUAL), ({'derive_bytemuck_vertex': True, 'derive_serde': True}, DUAL_SHUFFLED)):
-        bad2, n2 = native_encase(ctx, dsrc, ['Inst', 'Wrap'], 'dual', dict(OPTS, **extra))
-        if bad2:
-            ctx.report('C10/native-dual-role', f'byte image differs from the WGSL layout with options {extra}: {bad2[0]}', {'wgsl': dsrc, 'options': dict(OPTS, **extra), 'encase': bad2}, True, bad2)
+    def lemma_and_native():
+        # ---------------------------------------------------------------- (2) layout lemma in z3
+        for n in ([2, 3] if quick else [2, 3, 4]):
+            plain, expl = layout_lemma(ctx, n)
+            if plain is not None:
+                ctx.report('C10/layout-lemma', f'encase and WGSL layouts differ for a struct of {n} representable members without explicit attributes: {str(plain)[:300]}', {}, False)
+            if expl is not None:
+                seen[KNOWN_KEY] = seen.get(KNOWN_KEY, 0) + 1
+                if seen[KNOWN_KEY] == 1:
+                    bad, cnt = native_encase(ctx, CORPUS_EXPLICIT, ['S6'], 'explicit')
+                    ctx.report(KNOWN_KEY, f'explicit @size/@align is lost: {bad}', {'wgsl': CORPUS_EXPLICIT, 'encase': bad}, bool(bad), bad)
+        ctx.extra['layout_lemma'] = 'unsat (layouts agree) for every struct shape in the bound without explicit attributes; sat with explicit @size/@align (known finding)'
+        # ---------------------------------------------------------------- (3) native corpus through real encase + glam
+        names = ['S1', 'S2', 'S3', 'S4', 'S5', 'S7', 'S8', 'S9', 'S10']
+        for extra, dsrc in (({'derive_bytemuck_vertex': True}, DUAL), ({'derive_bytemuck_vertex': True, 'derive_serde': True}, DUAL_SHUFFLED)):
+            bad2, n2 = native_encase(ctx, dsrc, ['Inst', 'Wrap'], 'dual', dict(OPTS, **extra))
+            if bad2:
+                ctx.report('C10/native-dual-role', f'byte image differs from the WGSL layout with options {extra}: {bad2[0]}', {'wgsl': dsrc, 'options': dict(OPTS, **extra), 'encase': bad2}, True, bad2)
+            else:
+                ctx.replayed_ok += n2
+        bad, n = native_encase(ctx, CORPUS, names, 'corpus')
+        ctx.sample({'structs written through real encase + glam and compared with naga layout': n, 'mismatches': bad})
+        if bad:
+            ctx.report('C10/native', f'byte image differs from the WGSL layout: {bad[0]}', {'wgsl': CORPUS, 'encase': bad}, True, bad)
         else:
-            ctx.replayed_ok += n2
-    bad, n = native_encase(ctx, CORPUS, names, 'corpus')
-    ctx.sample({'structs written through real encase + glam and compared with naga layout': n, 'mismatches': bad})
-    if bad:
-        ctx.report('C10/native', f'byte image differs from the WGSL layout: {bad[0]}', {'wgsl': CORPUS, 'encase': bad}, True, bad)
-    else:
-        ctx.replayed_ok += n
+            ctx.replayed_ok += n
+    ctx.section('layout lemma and native corpus', lemma_and_native)
     ctx.extra['violations_by_rule'] = seen
     # the field-level contract encase's derive works from (member order, names, element types, selected representation, no stray field
     # attribute such as #[align(..)], whatever the address space of the variable): C06's conditions, run here with encase on as well
     saved_bounds = dict(ctx.bounds)
-    C06.run(ctx)
+    ctx.section('field-level contract (C06)', lambda: C06.run(ctx))
     ctx.bounds = dict(saved_bounds, field_level_contract='C06 run as a sub-check (its bounds: ' + str(ctx.bounds)[:300] + ')')
     ctx.extra['violations_by_rule'] = dict(seen, **(ctx.extra.get('violations_by_rule') or {}))
 
